@@ -257,6 +257,20 @@ def rule_x2(F):
         for m in hir.find_match_on(b.hir["value"], "Verdict::", min_arms=2):
             for row in hir.table(m):
                 rows[row["alts"][0].split("(")[0]] = hir.last((row["result"] or "").replace("(..)", ""))
+        if not rows:
+            # `if let Verdict::Accept(..) = verdict { Ok(()) } else { Err(()) }`: a two-row table over the two variants of Verdict
+            for iff in hir.nodes(b.hir["value"], "if"):
+                c = iff["cond"]
+                if c.get("k") != "let" or iff.get("else") is None:
+                    continue
+                pd = hir.pat_desc(c["pat"])
+                named = "Verdict::Accept" if "Verdict::Accept" in pd else "Verdict::Reject" if "Verdict::Reject" in pd else None
+                if named is None:
+                    continue
+                other = "Verdict::Reject" if named == "Verdict::Accept" else "Verdict::Accept"
+                rows[named] = hir.last((hir.short_result(iff["then"]) or "").replace("(..)", ""))
+                rows[other] = hir.last((hir.short_result(iff["else"]) or "").replace("(..)", ""))
+            # `matches!(verdict, Verdict::Accept(..))`-style boolean forms are not read: they would fail closed below
         r.inst("verdict table", rows)
         if rows.get("Verdict::Accept") != "Ok" or rows.get("Verdict::Reject") != "Err":
             r.bad(b.path, "verdict table", relfile(b.file), b.line, "a test's verdict is mapped %s; expected Accept -> Ok, Reject -> Err" % rows)
